@@ -614,7 +614,8 @@ def resampleStepwise(xin, yin, xout, avg=True):
     for i in range(1, len(bins)):
         start = bins[i - 1]
         end = bins[i]
-        chunk = yin[start - 1 : end]
+        # work on a copy: a slice of a numpy array is a view of the caller's data
+        chunk = list(yin[start - 1 : end])
         length = xin[start - 1 : end + 1]
         length = [length[j] - length[j - 1] for j in range(1, len(length))]
 
@@ -643,7 +644,9 @@ def resampleStepwise(xin, yin, xout, avg=True):
             elif avg:
                 length[0] *= fraction
             else:
-                chunk[0] *= fraction
+                # take away the uncovered share of the untrimmed value: when the output bin lies
+                # inside a single input bin, this entry was already trimmed on the right above
+                chunk[0] = chunk[0] - yin[start - 1] * (1.0 - fraction)
 
         # return the sum or the average
         if [1 for c in chunk if (not hasattr(c, "__len__") and c is None)]:
